@@ -20,7 +20,13 @@ func main() {
 	outdir := flag.String("outdir", "", "worker: output directory (internal)")
 	replay := flag.String("replay", "", "replay file")
 	list := flag.Bool("list", false, "list properties")
+	deepnest := flag.String("deepnest", "", "internal: <maker>:<depth> compile one deeply nested source in this process")
 	flag.Parse()
+
+	if *deepnest != "" {
+		deepNestChild(*deepnest)
+		return
+	}
 
 	if *list {
 		for id := range props {
